@@ -276,3 +276,10 @@ fn c10_recv_n_vectored_continue() {
     std::mem::forget(fut);
     std::mem::forget(fd);
 }
+
+// Accessors for C13 (the `state` field of these futures is private to `net`).
+pub(crate) fn connect_res_addr<A: SocketAddress>(f: &super::Connect<'_, A>) -> usize { ops::resources_addr(&f.state) }
+pub(crate) fn bind_res_addr<A: SocketAddress>(f: &super::Bind<'_, A>) -> usize { ops::resources_addr(&f.state) }
+pub(crate) fn send_to_res_addr<B: Buf, A: SocketAddress>(f: &super::SendTo<'_, B, A>) -> usize { ops::resources_addr(&f.state) }
+pub(crate) fn accept_res_addr<A: SocketAddress>(f: &super::Accept<'_, A>) -> usize { ops::resources_addr(&f.state) }
+use super::SocketAddress;
